@@ -206,6 +206,21 @@ class _Eliminator(DefaultTransformVisitor):
             return None, ctx
         return super()._visit_effect(stmt, ctx)
 
+    def _never_falls_through(self, stmt: Stmt) -> bool:
+        """Whether every path through `stmt` ends in a `return`."""
+        match stmt:
+            case ReturnStmt():
+                return True
+            case IfStmt():
+                return (
+                    any(self._never_falls_through(s) for s in stmt.ift.stmts)
+                    and any(self._never_falls_through(s) for s in stmt.iff.stmts)
+                )
+            case ContextStmt():
+                return any(self._never_falls_through(s) for s in stmt.body.stmts)
+            case _:
+                return False
+
     def _visit_block(self, block: StmtBlock, ctx: None) -> tuple[StmtBlock, None]:
         if self._is_empty_block(block):
             # do nothing
@@ -224,6 +239,13 @@ class _Eliminator(DefaultTransformVisitor):
                         stmts.extend(s.stmts)
                     case _:
                         raise RuntimeError(f'unexpected: {s}')
+
+                # a branch spliced in place of its `if` may end in a `return`:
+                # what followed the `if` is unreachable now
+                if stmts and self._never_falls_through(stmts[-1]):
+                    if stmt is not block.stmts[-1]:
+                        self.eliminated = True
+                    break
 
             # empty block -> add a pass statement
             if len(stmts) == 0:
